@@ -107,7 +107,14 @@ func VerifC18_WrongDomain() {
 // bytes produced by sealing verify) and never panic.
 func VerifC18_Tamper() {
 	priv, id := c18key()
-	data, err := MakeIngestRequest(id, priv, verif_Bytes("multihash", 1), nil, nil, nil)
+	// (thorough tier: a request with every field present, so that every part of the
+	// sealed record is altered)
+	var ctxID, md []byte
+	var addrs []string
+	if verif_Tier() > 0 {
+		ctxID, md, addrs = verif_Bytes("contextID", 1), verif_Bytes("metadata", 1), []string{"/ip4/1.2.3.4/tcp/5"}
+	}
+	data, err := MakeIngestRequest(id, priv, verif_Bytes("multihash", 1+verif_Tier()), ctxID, md, addrs)
 	verif_Assert(err == nil, "sealing succeeds")
 	// (counted from the end: the signature is the last field of a sealed envelope,
 	// in the real encoding and in the engine's model of it alike, so a position
